@@ -7,9 +7,11 @@
 From Coq Require Import String.
 From RU Require Import Base.Prelude Base.Utf8 Base.Utf8Facts Model.AsciiSet Gen.Tables
   Model.PercentEncoding Model.HostT Model.UrlRecord Model.Parser Model.Setters Model.WF
-  Proofs.ListN Proofs.C14_Enc Proofs.C02_Enc Proofs.C02_Parts Proofs.C02_Opaque Proofs.C02_Reach.
+  Proofs.ListN Proofs.C14_Enc Proofs.C02_Enc Proofs.C02_Parts Proofs.C02_Opaque Proofs.C02_Path Proofs.C02_PathL1
+  Proofs.C02_Reach.
 Open Scope string_scope.
 Open Scope N_scope.
+Open Scope list_scope.
 
 (* ---------- A. the full statement ---------- *)
 (* Reachable = results of parse / join and of every mutator of Model/Setters.v (19 operations incl.
@@ -165,6 +167,108 @@ Example C02_opaque_inhabited :
   /\ opaque_input (B "mailto:x@y?subject=%41") = true /\ opaque_input (B "a:/b") = false
   /\ opaque_input (B "http:b") = false.
 Proof. vm_compute. repeat split. Qed.
+
+(* ---------- D. non-special URLs without authority and with a '/'-led path, parsed without a base ---------- *)
+(* the class, decided on the input: scheme ':' '/' rest, non-special scheme, rest not starting with '/' *)
+Definition noauth_input (input : list N) : bool :=
+  match parse_scheme CUrlParser (input_new_trim_c0 input) with
+  | Some (sch, rem) =>
+      scheme_type_eqb (scheme_type_of sch) STNotSpecial
+      && match inp_split_prefix_str s_ss rem with None => true | Some _ => false end
+      && match inp_split_prefix_char 47 rem with Some _ => true | None => false end
+  | None => false
+  end.
+
+Lemma noauth_input_inv input : noauth_input input = true ->
+  exists sch rem rem', parse_scheme CUrlParser (input_new_trim_c0 input) = Some (sch, rem)
+    /\ scheme_type_of sch = STNotSpecial /\ inp_split_prefix_str s_ss rem = None
+    /\ inp_split_prefix_char 47 rem = Some rem'.
+Proof.
+  unfold noauth_input. destruct (parse_scheme CUrlParser (input_new_trim_c0 input)) as [[sch rem]|]; [|discriminate].
+  intros H. apply andb_true_iff in H. destruct H as [H H3]. apply andb_true_iff in H. destruct H as [H1 H2].
+  destruct (inp_split_prefix_char 47 rem) as [rem'|] eqn:E47; [|discriminate].
+  exists sch, rem, rem'. split; [reflexivity|]. split; [|split; [|exact E47]].
+  - destruct (scheme_type_of sch); try discriminate. reflexivity.
+  - destruct (inp_split_prefix_str s_ss rem); [discriminate | reflexivity].
+Qed.
+
+(* the canonical-form clauses the parser establishes for the class (DESIGN's WF S3-S7 restricted to it):
+   the record is  scheme ":" ["/."] "/" seg "/" ... "/" last ["?" q] ["#" f]  with a lower-case non-special
+   scheme, every segment free of '/', clean for the PATH set and not a single- or double-dot segment in any
+   spelling (".", "%2e", "..", ".%2E", ...), the marker present exactly when the path starts with "//",
+   query clean for QUERY, fragment clean for FRAGMENT *)
+Definition canon_noauth (u : url) : Prop :=
+  exists sch segs last q f, noauth_ok sch segs last q f /\ u = noauth_url sch (path_text segs last) q f.
+
+(* L1 restricted to the class *)
+Theorem C02_L1_noauth : forall dbg hp hpo hd ovr input u,
+  usv_list input -> noauth_input input = true ->
+  parse_url dbg hp hpo hd ovr None input = POk u ->
+  canon_noauth u /\ wf_b u = true /\ ascii (ser u) /\ cannot_be_a_base u = Some false.
+Proof.
+  intros dbg hp hpo hd ovr input u Hu Hc Hp.
+  destruct (noauth_input_inv input Hc) as (sch & rem & rem' & Hs & Hns & Hss & H47).
+  destruct (parse_noauth_out dbg hp hpo hd ovr input sch rem rem' u Hu Hs Hns Hss H47 Hp) as (segs & last & q & f & K & ->).
+  destruct (noauth_url_wf sch segs last q f K) as (W & C & A).
+  split; [exists sch, segs, last, q, f; split; [exact K | reflexivity]|]. split; [exact W|]. split; [exact A | exact C].
+Qed.
+Check C02_L1_noauth : forall dbg hp hpo hd ovr input u,
+  usv_list input -> noauth_input input = true ->
+  parse_url dbg hp hpo hd ovr None input = POk u ->
+  canon_noauth u /\ wf_b u = true /\ ascii (ser u) /\ cannot_be_a_base u = Some false.
+Print Assumptions C02_L1_noauth.
+
+(* L3 for the class: every canonical record is a fixpoint *)
+Theorem C02_L3_noauth : forall dbg hp hpo hd u, canon_noauth u -> Fixpoint_of_reparse dbg hp hpo hd u.
+Proof.
+  intros dbg hp hpo hd u (sch & segs & last & q & f & K & ->).
+  destruct (noauth_url_wf sch segs last q f K) as (_ & _ & A).
+  unfold Fixpoint_of_reparse, reparse. cbn [ser noauth_url]. rewrite utf8_lossy_ascii by exact A.
+  exact (reparse_noauth_form dbg hp hpo hd None sch segs last q f K).
+Qed.
+Check C02_L3_noauth : forall dbg hp hpo hd u, canon_noauth u ->
+  parse_url dbg hp hpo hd None None (utf8_lossy (ser u)) = POk u.
+Print Assumptions C02_L3_noauth.
+
+(* L1 + L3: parse results of the class are fixpoints *)
+Theorem C02_reparse_noauth : forall dbg hp hpo hd ovr input u,
+  usv_list input -> noauth_input input = true ->
+  parse_url dbg hp hpo hd ovr None input = POk u ->
+  Fixpoint_of_reparse dbg hp hpo hd u.
+Proof.
+  intros dbg hp hpo hd ovr input u Hu Hc Hp.
+  apply C02_L3_noauth. exact (proj1 (C02_L1_noauth dbg hp hpo hd ovr input u Hu Hc Hp)).
+Qed.
+Check C02_reparse_noauth : forall dbg hp hpo hd ovr input u,
+  usv_list input -> noauth_input input = true ->
+  parse_url dbg hp hpo hd ovr None input = POk u ->
+  parse_url dbg hp hpo hd None None (utf8_lossy (ser u)) = POk u.
+Print Assumptions C02_reparse_noauth.
+
+(* the path state is the identity on canonical text (any prefix, any path_start): reusable for the
+   classes with authority *)
+Theorem C02_path_state_identity : forall dbg ps segs last rest ser hh,
+  forallb good_seg segs = true -> good_seg last = true ->
+  match rest with [] => True | c :: _ => is_qh c = true /\ is_tnl c = false end ->
+  parse_path_loop dbg CUrlParser STNotSpecial ps (segs_text segs ++ last ++ rest) ser (nlen ser) [] hh
+  = POk (ser ++ segs_text segs ++ last, hh, rest).
+Proof. exact path_loop_canon. Qed.
+Print Assumptions C02_path_state_identity.
+
+(* non-vacuity, and %2e spellings: a:/%2e is in the class and its result a:/ has no dot segment *)
+Example C02_noauth_inhabited :
+  noauth_input (B "a:/x/../y/./%2e%2E/z?q#f") = true /\ noauth_input (B "web+demo:/.//not-a-host/") = true
+  /\ noauth_input (B "a://h/") = false /\ noauth_input (B "a:b") = false
+  /\ match toy_parse "a:/x/%2e%2E/%2e" with POk u => list_eqb (ser u) (B "a:/") | _ => false end = true
+  /\ match toy_parse "a:/..//x" with POk u => list_eqb (ser u) (B "a:/.//x") && (path_start u =? 4) | _ => false end = true.
+Proof. vm_compute. repeat split. Qed.
+
+(* what is NOT proved for classes (iii)-(v) and for joins / setters *)
+Definition C02_L3_remaining_statement : Prop :=
+  forall dbg hp hpo hd, HostOK hp hpo hd -> forall ovr base input u,
+    usv_list input -> (match base with Some b => Reachable dbg hp hpo hd b | None => True end) ->
+    parse_url dbg hp hpo hd ovr base input = POk u -> Known_file_drive u = false ->
+    Fixpoint_of_reparse dbg hp hpo hd u.
 
 (* ---------- F. every excluded class contains a history that is not a fixpoint ---------- *)
 Theorem C02_F_C03_5_refuted :
